@@ -23,13 +23,13 @@ import (
 	"verif/internal/sup"
 )
 
-type sizes struct{ exhRounds, rand, refuse, witness int }
+type sizes struct{ exhRounds, rand, refuse, orphan, witness int }
 
 func tierSizes(tier string) sizes {
 	if tier == "thorough" {
-		return sizes{exhRounds: 6, rand: 30000, refuse: 400, witness: 400}
+		return sizes{exhRounds: 10, rand: 40000, refuse: 800, orphan: 3200, witness: 600}
 	}
-	return sizes{exhRounds: 1, rand: 1400, refuse: 48, witness: 60}
+	return sizes{exhRounds: 2, rand: 3600, refuse: 96, orphan: 320, witness: 80}
 }
 
 var procCycle = []int{4, 1, 2, 8, 2, 4, 16, 2}
@@ -60,6 +60,7 @@ func plan(tier string, seed int64) []sup.Batch {
 	var bs []sup.Batch
 	bs = append(bs, chunkVar("witness", "witness", z.witness, 2, 1500)...)
 	bs = append(bs, chunkVar("refuse", "refuse", z.refuse, 2, 1500)...)
+	bs = append(bs, chunkVar("orphan", "orphan", z.orphan, 4, 1500)...)
 	bs = append(bs, chunkVar("exh", "exh", exhTotal*z.exhRounds, nb, 1500)...)
 	bs = append(bs, chunkVar("rand", "rand", z.rand, nb, 1500)...)
 	return bs
@@ -143,6 +144,40 @@ func refuseCase(idx int, rng *rand.Rand) *caseProg {
 	top.Quote = rng.Intn(2) == 0
 	return &caseProg{Driver: driver, Units: [][]*Cmd{{top}}, B: b, Gate: true,
 		Label: fmt.Sprintf("finally fails (%s) before the %s handler is submitted", finKind, map[bool]string{true: "fail", false: "success"}[bodyFail])}
+}
+
+// orphanCase: a nested try whose finally handler fails at once while the try goroutine naps at
+// the hook: the inner fail/success handler is then submitted into a surrounding scope (the outer
+// body's) that has already ended, while the task manager's root scope (the outer command's) is
+// still alive. The outer try has few or no handlers, so that the late handler task is the last
+// thing the outer command scope waits for.
+func orphanCase(idx int, rng *rand.Rand) *caseProg {
+	b := newBuilder()
+	k := idx % 16
+	bodyFail := k&1 == 1
+	finKind := []string{"ret", "app"}[(k>>1)&1]
+	driver := []string{"term", "args"}[(k>>2)&1]
+	outerFin := (k>>3)&1 == 1
+	bf := ""
+	if bodyFail {
+		bf = "ret"
+	}
+	other := []*Cmd{b.probe("", 0, 0)}
+	fin := []*Cmd{b.probe(finKind, 0, 0)}
+	var inner *Cmd
+	if bodyFail {
+		inner = b.try([]*Cmd{b.probe(bf, 0, 0)}, nil, other, fin)
+	} else {
+		inner = b.try([]*Cmd{b.probe(bf, 0, 0)}, other, nil, fin)
+	}
+	var ofin []*Cmd
+	if outerFin {
+		ofin = []*Cmd{b.probe("", 0, 0)}
+	}
+	top := b.try([]*Cmd{inner}, nil, nil, ofin)
+	top.Quote = rng.Intn(2) == 0
+	return &caseProg{Driver: driver, Units: [][]*Cmd{{top}}, B: b, HookUS: 150 + rng.Intn(300),
+		Label: fmt.Sprintf("nested try: finally fails (%s) before the %s handler is submitted", finKind, map[bool]string{true: "fail", false: "success"}[bodyFail])}
 }
 
 // witnessCase: the minimal witness programs of C16-F1, exactly as recorded:
@@ -231,7 +266,7 @@ func runCase(c *sup.Child, idx int, kind string, p *caseProg) bool {
 			}
 		}
 		r.Nontrivial = st.handlersSelected > 0
-		if (kind == "exh" && idx%173 == 5) || (kind == "rand" && idx%257 == 3) || (kind == "refuse" && idx == 1) {
+		if (kind == "exh" && idx%173 == 5) || (kind == "rand" && idx%257 == 3) || (kind == "refuse" && idx == 1) || (kind == "orphan" && idx == 2) {
 			r.Sample = map[string]any{"kind": kind, "driver": p.Driver, "program": p.texts, "probe_log": l.trace(), "surroundings": out.srs}
 		}
 	})
@@ -255,6 +290,8 @@ func run(c *sup.Child, b sup.Batch) {
 			p = refuseCase(idx, c.Rand(idx))
 		case "witness":
 			p = witnessCase(idx)
+		case "orphan":
+			p = orphanCase(idx, c.Rand(idx))
 		default:
 			return
 		}
